@@ -119,7 +119,7 @@ class Frame:
         return s.loc[i]
 
 class State:
-    def __init__(s): s.frames=[]; s.pc=[]; s.result=None; s.trace=[]; s.depth={}; s.model=None
+    def __init__(s): s.frames=[]; s.pc=[]; s.result=None; s.trace=[]; s.depth={}; s.model=None; s.tls={}
     def clone(s):
         memo={}
         # z3 refs are immutable: share them
@@ -302,6 +302,9 @@ def mk_eval_const(M):
     def eval_const(name):
         if name in M.const_cache: return copy.deepcopy(M.const_cache[name])
         kind,ty,body=M.consts[name]
+        if 'LocalKey<' in ty and not ty.strip().startswith('&'):
+            mm_=re.search(r'LocalKey<(.*)>\s*$',ty.strip())
+            return Agg('LocalKey',[name,norm_ty(mm_.group(1)) if mm_ else ty])
         if kind=='simple':
             v=parse_const(M,body[len('const '):] if body.startswith('const ') else body)
         else:
@@ -971,7 +974,7 @@ def deref(v):
     while isinstance(v,Ref): v=getp(v.cell,v.path)
     return v
 def subcall(M,st,f,args):
-    s2=State(); s2.pc=list(st.pc); s2.frames=[Frame(f,args,None,None)]
+    s2=State(); s2.pc=list(st.pc); s2.tls=st.tls; s2.frames=[Frame(f,args,None,None)]
     res=M.run(s2)
     if len(res)!=1: raise Unsupported(f'subcall forks: {f.name} {len(res)}')
     if isinstance(res[0].result,tuple) and res[0].result and res[0].result[0]=='PANIC': raise Panic(res[0].result[1])
@@ -1264,6 +1267,51 @@ def call_model(M,st,fr,callee,args):
         if meth=='remove':
             if p is True: hit[2]=False; return some(hit[1])
             old=hit[2]; hit[2]=False; return Forks([(old,some(hit[1])),(z3.Not(old),NONE())])
+    m=re.match(r'^LocalKey::<(.*)>::with::<',c) or re.match(r'^(?:std::thread::)?LocalKey::<(.*)>::with::<',c)
+    if m:
+        key=deref(args[0]); clo=args[1]
+        if not(isinstance(key,Agg) and key.name=='LocalKey'): raise Unsupported('LocalKey::with on an unknown key')
+        name=key.f[0]
+        if name not in st.tls:
+            # lazily initialised on first use by this thread: run the init function the thread_local! macro generated for this T
+            cand=[f_ for n_,f_ in M.fns.items() if n_.split('::')[-1]=='__rust_std_internal_init_fn' and norm_ty(f_.ltypes.get(0,''))==key.f[1]]
+            if len(cand)!=1: raise Unsupported(f'thread_local init function for {name}: {len(cand)} candidates')
+            st.tls[name]=Cell('tls:'+name,subcall(M,st,cand[0],[]))
+        f_=M.by_closure[re.search(r'\{closure@([^}]*)\}',clo.name).group(1)]
+        return Redirect(f_,[clo,Ref(st.tls[name],[])])
+    if re.match(r'^RefCell::<.*>::new$',c): return Agg('RefCell',[args[0]])
+    m=re.match(r'^RefCell::<.*>::(borrow_mut|borrow)$',c)
+    if m:
+        r=args[0]
+        while isinstance(getp(r.cell,r.path),Ref): r=getp(r.cell,r.path)
+        return Agg('RefMut',[Ref(r.cell,list(r.path)+[('f',0)])])
+    if re.match(r'^<(std::cell::)?(RefMut|Ref)<.*> as (Deref|DerefMut)>::(deref|deref_mut)$',c):
+        return deref_once(args[0]).f[0] if isinstance(args[0],Ref) else args[0].f[0]
+    m=re.match(r'^HashMap::<.*>::entry$',c)
+    if m: return Agg('MapEntry',[args[0],args[1]])
+    m=re.match(r'^(?:std::collections::hash_map::)?Entry::<.*>::(or_insert_with|or_insert|or_default)(::<.*>)?$',c)
+    if m:
+        ent=args[0]; mp=deref(ent.f[0]); key=ent.f[1]; hit=None
+        for sl in mp.slots:
+            same=veq(sl[0],key) if sl[2] is not False else z3.BoolVal(False)
+            same=z3.simplify(same)
+            if z3.is_true(same) and sl[2] is True: hit=sl; break
+            if not z3.is_false(same): raise Unsupported('HashMap::entry with a key whose presence is symbolic')
+        if hit is not None: return Ref(Cell('mapval',hit[1]),[])
+        def ins(v,mp=mp,key=key):
+            mp.slots.append([key,v,True]); return Ref(Cell('mapval',v),[])
+        if m.group(1)=='or_insert': return ins(args[1])
+        if m.group(1)=='or_default': raise Unsupported('Entry::or_default')
+        clo=args[1]; f_=M.by_closure[re.search(r'\{closure@([^}]*)\}',clo.name).group(1)]
+        return Redirect(f_,[clo],ins)
+    m=re.match(r'^HashMap::<.*>::clear$',c)
+    if m: deref(args[0]).slots.clear(); return Unit()
+    m=re.match(r'^<Option<.*> as PartialEq>::(eq|ne)$',c)
+    if m:
+        a_,b_=deref(args[0]),deref(args[1])
+        if not(isinstance(a_.var,str) and isinstance(b_.var,str)): raise Unsupported('Option == with symbolic variants')
+        r_=z3.BoolVal(False) if a_.var!=b_.var else (veq(a_.f[0],b_.f[0]) if a_.f else z3.BoolVal(True))
+        return mkbool(r_ if m.group(1)=='eq' else z3.Not(r_))
     if re.match(r'^<HashMap<.*> as PartialEq>::(eq|ne)$',c):
         a_,b_=deref(args[0]),deref(args[1]); conds=[]
         ka={repr(sl[0]):sl for sl in a_.slots if sl[2] is not False}; kb={repr(sl[0]):sl for sl in b_.slots if sl[2] is not False}
